@@ -102,6 +102,8 @@ def classes(impl, G):
     ko = R.choice(ALL7)
     out.append(('unsupported intersection', 'intersection(%s, %s)' % (ko, type(fo).__name__), lambda: impl.intersection(objs[ko], fo)))
     out.append(('unsupported intersection', 'intersection(%s, %s)' % (type(fo).__name__, ko), lambda: impl.intersection(fo, objs[ko])))
+    out.append(('unsupported intersection', 'intersection(x, x) with x a %s (the very same object)' % type(fo).__name__, lambda: impl.intersection(fo, fo)))
+    out.append(('unsupported distance', 'distance(x, x) with x a %s' % type(fo).__name__, lambda: impl.distance(fo, fo)))
     DOC_D = {('P', 'P'), ('P', 'L'), ('L', 'P'), ('L', 'L'), ('P', 'PL'), ('PL', 'P'), ('L', 'PL'), ('PL', 'L')}
     DOC_A = {('L', 'L'), ('L', 'PL'), ('PL', 'L'), ('PL', 'PL')}
     ka, kb = R.choice(ALL7), R.choice(ALL7)
